@@ -26,12 +26,14 @@ pub fn run(args: &[String]) {
     let millis: u64 = args.get(1).map(|s| s.parse().unwrap()).unwrap_or(2000);
     let seed: u64 = args.get(2).map(|s| s.parse().unwrap()).unwrap_or(1);
     let reentrant = args.get(3).map(|s| s == "getref_reentrant").unwrap_or(false);
+    // "readers": read-heavy mix on a wider access buffer (hand-over of full buffers under contention)
+    let readers = args.get(3).map(|s| s == "readers").unwrap_or(false);
     crate::sched::install_panic_hook();
 
     let ctl = Controller::new();
     let clock = Arc::new(AtomicU64::new(1_000_000_000_000));
     let config = ConfigBuilder::new(16, 16, 40)
-        .shards(2).command_buffer_size(1).access_pool_size(1).access_buffer_size(1)
+        .shards(2).command_buffer_size(1).access_pool_size(1).access_buffer_size(if readers { 4 } else { 1 })
         .clock(Box::new(MockClock(clock.clone())))
         .build();
     ctl.install();
@@ -69,7 +71,7 @@ pub fn run(args: &[String]) {
             while !stop.load(Ordering::SeqCst) {
                 let k = rng.below(4);
                 let v = rng.next() % 1000;
-                let op = rng.below(12);
+                let op = if readers && rng.below(10) < 8 { 7 } else { rng.below(12) };
                 let attempt = std::panic::catch_unwind(std::panic::AssertUnwindSafe(|| match op {
                     0 | 1 => cache.put_with_weight(k, v, 1 + (rng.below(12)) as i64).ok(),
                     2 => cache.put_with_weight_and_ttl(k, v, 25 + rng.below(8) as i64, Duration::from_millis(200 + rng.below(2000))).ok(),
